@@ -12,6 +12,8 @@ import (
 	"time"
 
 	"github.com/allegro/bigcache/v3"
+	legacybucketteer "github.com/rpcpool/yellowstone-faithful/deprecated/bucketteer"
+	legacyindex "github.com/rpcpool/yellowstone-faithful/deprecated/compactindex"
 	hugecache "github.com/rpcpool/yellowstone-faithful/huge-cache"
 	"github.com/rpcpool/yellowstone-faithful/indexes"
 	"github.com/rpcpool/yellowstone-faithful/zzverif/cargen"
@@ -193,6 +195,76 @@ func vkNewMulti(conc int, eps ...*Epoch) *MultiEpoch {
 		}
 	}
 	return m
+}
+
+// vkBuildLegacyCidIndex writes a deprecated (size-less) cid-to-offset index over the epoch's CAR with the
+// repository's own legacy builder: key = CID bytes, value = offset of the section in the CAR.
+func vkBuildLegacyCidIndex(dir string, t *cargen.Truth) (string, error) {
+	tmp := filepath.Join(dir, "legacy-build")
+	if err := os.MkdirAll(tmp, 0o755); err != nil {
+		return "", err
+	}
+	b, err := legacyindex.NewBuilder(tmp, uint(len(t.Objects)), uint64(len(t.Bytes)))
+	if err != nil {
+		return "", err
+	}
+	defer b.Close()
+	for _, o := range t.Objects {
+		if err := b.Insert(o.Cid.Bytes(), o.Offset); err != nil {
+			return "", err
+		}
+	}
+	path := filepath.Join(dir, "legacy.cid-to-offset.index")
+	f, err := os.OpenFile(path, os.O_CREATE|os.O_RDWR|os.O_TRUNC, 0o644)
+	if err != nil {
+		return "", err
+	}
+	defer f.Close()
+	if err := b.Seal(context.Background(), f); err != nil {
+		return "", err
+	}
+	return path, nil
+}
+
+// vkBuildLegacySigExists writes the signature-existence index in the deprecated format (which a config with
+// the deprecated cid-to-offset index is read with), using the repository's own legacy writer.
+func vkBuildLegacySigExists(dir string, t *cargen.Truth) (string, error) {
+	path := filepath.Join(dir, "legacy.sig-exists.index")
+	os.Remove(path)
+	w, err := legacybucketteer.NewWriter(path)
+	if err != nil {
+		return "", err
+	}
+	for _, tx := range t.Txs {
+		w.Put(tx.Sig)
+	}
+	if _, err := w.Seal(map[string]string{}); err != nil {
+		w.Close()
+		return "", err
+	}
+	return path, w.Close()
+}
+
+// writeLegacyConfig builds the two legacy-format files and writes a config that serves the epoch through
+// them (indexes.cid_to_offset set, cid_to_offset_and_size unset). e.ConfigPath is left unchanged.
+func (e *vEpoch) writeLegacyConfig(o vkConfigOpts) (string, error) {
+	lcid, err := vkBuildLegacyCidIndex(e.Dir, e.Truth)
+	if err != nil {
+		return "", err
+	}
+	lsig, err := vkBuildLegacySigExists(e.Dir, e.Truth)
+	if err != nil {
+		return "", err
+	}
+	saved := e.ConfigPath
+	o.Name, o.LegacyCidToOffset = "config-legacy", lcid
+	if o.Overrides == nil {
+		o.Overrides = map[string]string{}
+	}
+	o.Overrides["sig_exists"] = lsig
+	p := e.writeConfig(o)
+	e.ConfigPath = saved
+	return p, nil
 }
 
 // vkRequestWatchdog, when non-zero, bounds every request driven through vkHTTP / vkWatch: the call runs in
